@@ -11,6 +11,8 @@ echo "[warm] kani build + one small harness (c27_v4_contract)"
 (cd "$REPO/sdk" && cargo kani --target-dir "$here/.cache/kani" --no-default-features --features openssl -Z stubbing -Z function-contracts -Z unstable-options --output-format terse --harness c27_v4_contract) > "$here/.cache/warm-kani.log" 2>&1 || echo "[warm] kani warm-up failed (see .cache/warm-kani.log)"
 echo "[warm] native playback build (sdk)"
 (cd "$REPO/sdk" && CARGO_TARGET_DIR="$here/.cache/playback" cargo kani playback -Z concrete-playback --lib --no-default-features --features openssl -- c12_sidecar_box_map --nocapture) > "$here/.cache/warm-playback-sdk.log" 2>&1 || echo "[warm] sdk playback warm-up failed (see .cache/warm-playback-sdk.log)"
+echo "[warm] native playback build (sdk, feature file_io: separate target directory)"
+(cd "$REPO/sdk" && CARGO_TARGET_DIR="$here/.cache/playback_fileio" cargo kani playback -Z concrete-playback --lib --no-default-features --features openssl,file_io -- c29_nothing --nocapture) > "$here/.cache/warm-playback-fileio.log" 2>&1 || echo "[warm] sdk file_io playback warm-up failed (see .cache/warm-playback-fileio.log)"
 echo "[warm] native playback build (c2pa_c_ffi)"
 (cd "$REPO/c2pa_c_ffi" && CARGO_TARGET_DIR="$here/.cache/playback" cargo kani playback -Z concrete-playback --lib -- c31_nothing --nocapture) > "$here/.cache/warm-playback-ffi.log" 2>&1 || echo "[warm] ffi playback warm-up failed (see .cache/warm-playback-ffi.log)"
 echo "[warm] done"
